@@ -202,6 +202,7 @@ def make_face():
         def __init__(self):
             super().__init__()
             self.out = []
+            self.held = []
             self.stop = None
             self.local = True
 
@@ -216,6 +217,22 @@ def make_face():
 
         def send(self, data):
             self.out.append(bytes(data))
+            # a transport may keep the object it is handed until the socket is writable (asyncio's stream transports queue
+            # references since Python 3.12): what was handed over must not change afterwards
+            if isinstance(data, (bytearray, memoryview)):
+                self.held.append((data, self.out[-1]))
+                del self.held[:-48]
+
+        def overwritten(self):
+            """number of buffers handed to send() whose content changed afterwards"""
+            n = 0
+            for ref, cp in self.held:
+                try:
+                    if bytes(ref) != cp:
+                        n += 1
+                except ValueError:      # a released memoryview
+                    n += 1
+            return n
 
         async def run(self):
             await self.stop
